@@ -479,13 +479,23 @@ class Gen:
         qs = [0, 1, 2] if r.random() < 0.5 else r.sample([0, 1, 2], 2)
         return {"sp": sp, "tr": trs, "q": qs, "m": r.choice([[0, 1, 2], [0, 1]]), "fams": fams}
 
-    def pick(self, u, kind, bad_key_p, used):
+    def pick(self, u, kind, bad_key_p, used, fam=None, prefix=()):
         r = self.rng
         for _ in range(20):
             if kind == "sp":
                 k = r.choice(u["sp"])
             elif kind == "q":
-                k = r.choice(u["q"]) if r.random() > bad_key_p else r.choice([3, 7, 11])
+                if r.random() < bad_key_p:
+                    k = r.choice([3, 7, 11])
+                else:
+                    # a charge the governing species (the nearest species to the left) accepts
+                    sps = [p for p in prefix if isinstance(p, str) and p in ZNUM]
+                    zmax = ZNUM[sps[-1]] if sps else 2
+                    if fam == "pectcx" and len(prefix) == 1:
+                        zmax -= 1            # valid_charge(donor, donor_charge + 1)
+                    if fam == "tcx" and len(prefix) == 1:
+                        zmax = 2             # the donor charge of thermal CX is not validated
+                    k = r.choice([q for q in u["q"] if q <= zmax] or [0])
             elif kind == "m":
                 k = r.choice(u["m"]) if r.random() > bad_key_p else -1
             elif kind == "tr":
@@ -496,7 +506,7 @@ class Gen:
                 return k
         return None
 
-    def tree(self, u, levels, width, bad_p, bad_key_p, empty_p=0.0):
+    def tree(self, u, levels, width, bad_p, bad_key_p, empty_p=0.0, fam=None, prefix=()):
         """random nested dictionary; keys unique per level (it becomes a Python dict)"""
         r = self.rng
         if not levels:
@@ -507,12 +517,16 @@ class Gen:
                 return []
         out, used = [], []
         for _ in range(n):
-            k = self.pick(u, levels[0], bad_key_p, used)
+            k = self.pick(u, levels[0], bad_key_p, used, fam, prefix)
             if k is None:
                 break
             used.append(k)
-            out.append([list(k) if isinstance(k, tuple) else k, self.tree(u, levels[1:], width, bad_p, bad_key_p, empty_p)])
+            out.append([list(k) if isinstance(k, tuple) else k,
+                        self.tree(u, levels[1:], width, bad_p, bad_key_p, empty_p, fam, prefix + (k,))])
         return out
+
+    def okq(self, s, hi=2, lo=0):
+        return self.rng.choice([q for q in range(lo, hi + 1) if q <= ZNUM[s]] or [0])
 
     def call(self, u, mixed_roots):
         r = self.rng
@@ -523,16 +537,17 @@ class Gen:
             fam = r.choice(fams)
             bad = r.random() < 0.22
             return {"style": "update", "fam": fam, "repo": repo, "recursive": r.random() < 0.3,
-                    "tree": self.tree(u, LEVELS[fam], 3, 0.25 if bad and fam != "wvl" else 0.0, 0.15 if bad else 0.0, 0.08)}
+                    "tree": self.tree(u, LEVELS[fam], 3, 0.25 if bad and fam != "wvl" else 0.0, 0.15 if bad else 0.0, 0.08, fam=fam)}
         if x < 0.75:
             fam = r.choice(fams)
             bad = r.random() < 0.15
             if fam == "tcx":
-                t = self.tree(u, LEVELS[fam][:3], 1, 0, 0)
-                t[0][1][0][1][0][1] = self.tree(u, ["q"], 3, 0.3 if bad else 0.0, 0.3 if bad else 0.0)
+                t = self.tree(u, LEVELS[fam][:3], 1, 0, 0, fam=fam)
+                t[0][1][0][1][0][1] = self.tree(u, ["q"], 3, 0.3 if bad else 0.0, 0.3 if bad else 0.0, fam=fam,
+                                                prefix=(t[0][0], t[0][1][0][0], t[0][1][0][1][0][0]))
                 return {"style": "add", "fam": fam, "repo": repo, "tree": t}
             return {"style": "add", "fam": fam, "repo": repo,
-                    "tree": self.tree(u, LEVELS[fam], 1, 0.5 if bad and fam != "wvl" else 0.0, 0.4 if bad else 0.0)}
+                    "tree": self.tree(u, LEVELS[fam], 1, 0.5 if bad and fam != "wvl" else 0.0, 0.4 if bad else 0.0, fam=fam)}
         kinds = [k for k, f in INSTALL.items() if f in fams or (k == "adf15" and {"pec", "pectcx", "wvl"} & set(fams))]
         kind = r.choice(kinds or list(INSTALL))
         via = r.choice([None, None, "lower", "upper"])
@@ -540,31 +555,38 @@ class Gen:
         bad = r.random() < 0.12
         if kind in ADF11_SHIFT and kind != "adf11ccd":
             s = r.choice(u["sp"])
-            qs = r.sample([0, 1, 2, 3], r.randint(1, 3)) + ([12] if bad else [])
+            sh = ADF11_SHIFT[kind]
+            pool = [q for q in range(0, 4) if q + sh <= ZNUM[s]]
+            qs = r.sample(pool, r.randint(1, min(3, len(pool)))) + ([12] if bad else [])
             c["parsed"] = [[s, [[q, self.leaf(0.0)] for q in qs]]]
         elif kind == "adf11ccd":
             d, rcv = r.choice(u["sp"]), r.choice(u["sp"])
-            qs = r.sample([0, 1, 2], r.randint(1, 3)) + ([12] if bad else [])
+            pool = [q for q in range(0, 3) if q <= ZNUM[rcv]]
+            qs = r.sample(pool, r.randint(1, len(pool))) + ([12] if bad else [])
             c["tree"] = [[d, [[r.choice([0, 1]), [[rcv, [[q, self.leaf(0.0)] for q in qs]]]]]]]
         elif kind == "adf12":
-            d, rcv, q, m = r.choice(u["sp"]), r.choice(u["sp"]), r.choice([0, 1, 2] + ([11] if bad else [])), r.choice([0, 1, 2])
+            d, rcv, m = r.choice(u["sp"]), r.choice(u["sp"]), r.choice([0, 1, 2])
+            q = 11 if bad else self.okq(rcv)
             trs = r.sample(u["tr"], r.randint(1, min(3, len(u["tr"]))))
             c["tree"] = [[d, [[rcv, [[q, [[list(t), [[m, self.leaf(0.0)]]] for t in trs]]]]]]]
         elif kind == "adf15":
-            s, q = r.choice(u["sp"]), r.choice([0, 1, 2] + ([11] if bad else []))
+            s = r.choice(u["sp"])
+            q = 11 if bad else self.okq(s)
             c["element"], c["charge"] = s, q
-            for key, p in (("exc", 0.8), ("rec", 0.6), ("tcx", 0.5)):
+            for key, p in (("exc", 0.8), ("rec", 0.6), ("tcx", 0.5 if (q + 1 <= ZNUM[s] or r.random() < 0.1) else 0.0)):
                 trs = r.sample(u["tr"], r.randint(1, min(3, len(u["tr"])))) if r.random() < p else []
                 c[key] = [[s, [[q, [[list(t), self.leaf(0.0)] for t in trs]]]]] if trs else []
             trs = r.sample(u["tr"], r.randint(1, min(3, len(u["tr"]))))
             c["wvl"] = [[s, [[q, [[list(t), self.leaf(0.0)] for t in trs]]]]]
         elif kind == "adf21":
-            c["tree"] = [[r.choice(u["sp"]), [[r.choice(u["sp"]), [[r.choice([0, 1, 2] + ([11] if bad else [])), self.leaf(0.0)]]]]]]
+            t = r.choice(u["sp"])
+            c["tree"] = [[r.choice(u["sp"]), [[t, [[11 if bad else self.okq(t), self.leaf(0.0)]]]]]]
         elif kind == "adf22bmp":
-            c["tree"] = [[r.choice(u["sp"]), [[r.choice([0, 1, 2]), [[r.choice(u["sp"]), [[r.choice([0, 1, 2] + ([11] if bad else [])), self.leaf(0.0)]]]]]]]]
+            t = r.choice(u["sp"])
+            c["tree"] = [[r.choice(u["sp"]), [[r.choice([0, 1, 2]), [[t, [[11 if bad else self.okq(t), self.leaf(0.0)]]]]]]]]
         elif kind == "adf22bme":
-            c["tree"] = [[r.choice(u["sp"]), [[r.choice(u["sp"]), [[r.choice([0, 1, 2] + ([11] if bad else [])),
-                                                                   [[list(r.choice(u["tr"])), self.leaf(0.0)]]]]]]]]
+            t = r.choice(u["sp"])
+            c["tree"] = [[r.choice(u["sp"]), [[t, [[11 if bad else self.okq(t), [[list(r.choice(u["tr"])), self.leaf(0.0)]]]]]]]]
         return c
 
     def history(self):
